@@ -114,8 +114,10 @@ where D: VizDD<State = F::S> + Default {
         if let Some(o) = opt_r { incumbents.extend_from_slice(&[o - 1 - rng.range(0, 2) as isize, o, o + 1 + rng.range(0, 2) as isize]); } else { incumbents.push(0); }
         if let Some(g) = gopt { if rng.chance(1, 2) { incumbents.push(g - 1); } }
         for ct in [CompilationType::Relaxed, CompilationType::Restricted, CompilationType::Exact] {
-            for w in 1..=4usize {
-                if w == 4 && rng.chance(1, 2) { continue; }
+            let big = inst.nvars() >= 12;
+            let widths: Vec<usize> = if big { vec![1, 2, 3, 6, 9, 14] } else { vec![1, 2, 3, 4] };
+            for w in widths {
+                if (w == 4 || w == 14) && rng.chance(1, 2) { continue; }
                 for l in incumbents.iter().copied() {
                     if rng.chance(1, 3) { continue; }
                     for reuse in [false, true] {
@@ -199,7 +201,7 @@ pub fn drive_any<F: Fam>(case: &DdCase, prop: &'static str, props: u32) -> u64 {
 }
 
 pub fn random_case(rng: &mut Rng, only_all_impacted: bool, long_arcs: bool) -> DdCase {
-    let p = Profile { only_all_impacted, long_arcs_only: long_arcs, small: rng.chance(1, 4), depth_free_bias: rng.chance(1, 3), medium_share: 1, ..Default::default() };
+    let p = Profile { only_all_impacted, long_arcs_only: long_arcs, small: rng.chance(1, 4), depth_free_bias: rng.chance(1, 3), medium_share: 2, large_share: 1, ..Default::default() };
     let spec = random_spec(rng, &p);
     DdCase { family: spec.family, gen_seed: spec.gen_seed, size: spec.size, variant: Variant { dom: crate::models::DomKind::None, ..spec.variant }, dd: spec.cfg.dd, drive_seed: rng.next() >> 8 }
 }
